@@ -56,6 +56,16 @@ class Ctx:
             self._prog = irlib.Program([self.facts.ir(n) for n in names])
         return self._prog
 
+    def program_of(self, *units):
+        """Program restricted to the given units (cheap: only those IR files are parsed)."""
+        from . import irlib
+        key = tuple(units)
+        if not hasattr(self, "_progs"):
+            self._progs = {}
+        if key not in self._progs:
+            self._progs[key] = irlib.Program([self.facts.ir(n) for n in units])
+        return self._progs[key]
+
     # ---- obligations
     def rule(self, rid, text):
         self.rules[rid] = text
